@@ -440,10 +440,26 @@ def expand(sink: dict, states: dict) -> None:
         ln.update(pre=a["obj"], post=b["obj"], regpre=a["reg"], regpost=b["reg"], nregpre=a["nreg"], nregpost=b["nreg"])
 
 
-def run_program(W, prog, sink: dict, strays: list, states: dict | None = None):
+class Wit(tuple):
+    """a witness program kept as (program text, number of operations): the text object is shared by all transitions
+    of the program, which keeps worker results and the table of transitions small"""
+    __slots__ = ()
+
+    def prog(self):
+        return tlc_prog(self[0])[: self[1]]
+
+
+def tlc_prog(text: str):
+    d = json.loads(text)
+    d = json.loads(d) if isinstance(d, str) else d
+    return d["prog"]
+
+
+def run_program(W, prog, sink: dict, strays: list, states: dict | None = None, raw: str | None = None):
     """execute; add distinct transitions to sink (hash -> line)"""
     own = states is None
     states = {} if own else states
+    raw = raw if raw is not None else json.dumps({"prog": prog})
     from pyoak.legacy.node import AwareASTNode
     R = Runner(W)
     clean = True
@@ -489,13 +505,13 @@ def run_program(W, prog, sink: dict, strays: list, states: dict | None = None):
             break
         post_h = _state(states, post, R.registry(), len(AwareASTNode._nodes))
         line = {"op": op, "outcome": outcome, "pre_h": pre_h, "post_h": post_h, "clean": clean, "nm": f"h{len(R.nodes)}", "d": d}
-        hsh = hashlib.sha1(json.dumps(line, sort_keys=True).encode()).hexdigest()
+        hsh = hashlib.sha1(json.dumps(line, sort_keys=True).encode()).hexdigest()[:16]
         if hsh not in sink:
-            line["witness"] = prog[: step + 1]
+            line["witness"] = Wit((raw, step + 1))
             line["hsh"] = hsh
             line["alts"] = []
             sink[hsh] = line
-        add_alt(sink[hsh], list(trail), prog[: step + 1])
+        add_alt(sink[hsh], tuple(trail), Wit((raw, step + 1)))
         trail.append(hsh)
         if outcome != "ok" or R.double_placement_or_cycle():
             clean = False
@@ -548,7 +564,7 @@ def _exec(chunk, arg):
     n = 0
     for raw in chunk:
         prog = tlc.decode(raw)["prog"] if isinstance(raw, str) else raw
-        run_program(W, prog, sink, strays, states)
+        run_program(W, prog, sink, strays, states, raw if isinstance(raw, str) else None)
         n += len(prog)
     return sink, strays, n, states
 
@@ -826,12 +842,12 @@ def run(chk: core.Check, pid: str, classify):
     # random programs first: forking workers from a parent that already holds the big table of transitions is slow
     rng = random.Random(chk.seed + 61)
     seeds = [rng.randrange(1 << 30) for _ in range(6000 if quick else 60000)]
-    sink, strays = collect(chk, core.parallel(_exec_random, seeds, {"length": 12}, chunk=max(100, len(seeds) // 64)))
+    sink, strays = collect(chk, core.parallel_iter(_exec_random, seeds, {"length": 12}, chunk=max(100, min(500, len(seeds) // 64))))
     _tick(chk, "random programs executed")
     # programs with a common prefix next to each other and large chunks: a worker then sees most repetitions of a
     # transition itself and returns it once
     raws.sort()
-    s2, st2 = collect(chk, core.parallel(_exec, raws, {}, chunk=max(400, len(raws) // 64)))
+    s2, st2 = collect(chk, core.parallel_iter(_exec, raws, {}, chunk=max(400, min(6000, len(raws) // 64))))
     merge_sink(sink, s2)
     del s2
     strays += st2
@@ -869,15 +885,16 @@ def judge(chk, pid, classify, alllines, nprogs=0, nrandom=0, name=""):
     chk.traces_accepted += len(lines) - len(rej) + len(mlines) - len(nonconform)
     chk.evaluations += len(lines) + len(mlines)
     for ln in lines:
-        if len(ln["witness"]) >= 2:
+        if ln["witness"][1] >= 2:
             chk.nontrivial.add(ln["hsh"])
     if lines:
-        chk.sample({"witness_program": lines[len(lines) // 2]["witness"], "outcome": lines[len(lines) // 2]["outcome"]})
+        chk.sample({"witness_program": lines[len(lines) // 2]["witness"].prog(), "outcome": lines[len(lines) // 2]["outcome"]})
     consequences = 0
     bad = {lines[i - 1]["hsh"] for i in rej}
     for i, (outcome, clauses) in sorted(rej.items()):
         ln = lines[i - 1]
         wit = first_sound_history(ln, bad) if pid == "C18" else ln["witness"]
+        wit = wit.prog() if wit is not None else None
         if wit is None:
             consequences += 1       # every history seen had broken the invariants before this step: the first break is reported
             continue
@@ -902,7 +919,7 @@ def judge(chk, pid, classify, alllines, nprogs=0, nrandom=0, name=""):
     if div:
         ln = div[0]
         print(f"NOTE property={pid} {len(div)} observed transitions differ from Legacy.tla without breaking a clause of the "
-              f"property; first: {json.dumps(ln['witness'])[:300]} diff {json.dumps(mverdict[ln['hsh']]['diff'])[:300]}")
+              f"property; first: {json.dumps(ln['witness'].prog())[:300]} diff {json.dumps(mverdict[ln['hsh']]['diff'])[:300]}")
 
 
 def corrupt_machine_line(ln):
